@@ -80,6 +80,11 @@ static long idle_rounds, total_idle_rounds;
 static uint64_t blockseq;
 static uint64_t trace_hash;
 static void (*stuck_cb)(void) = nullptr;
+// optional log of the operations on watched objects (model conformance: the harness projects it onto
+// the model's event alphabet); marks are inserted by the harness
+struct EvRec { uint8_t tid, kind, changed, watch; uint32_t off; uint64_t val; };
+static EvRec evlog[1024];
+static int evlog_n = 0, evlog_on = 0;
 static int rec_len;
 static uint64_t deadlines[64];
 static int ndeadlines;
@@ -603,6 +608,8 @@ static inline void post_op(Pre p, int kind, const volatile void* a, const void* 
     if (!p.focus) return;
     in_rt = 1;
     Rec& r = R[self];
+    if (evlog_on && p.w >= 0 && evlog_n < 1024)
+        evlog[evlog_n++] = EvRec{(uint8_t) self, (uint8_t) kind, (uint8_t) changed, (uint8_t) p.w, (uint32_t) ((const char*) a - watches[p.w].lo), val};
     if (p.w >= 0)
         mix(((uint64_t) self << 56) ^ ((uint64_t) kind << 48) ^ ((uint64_t) p.w << 32) ^
             (uint64_t) ((const char*) a - watches[p.w].lo));
@@ -770,6 +777,18 @@ void pmc_focus_pthread(int on) { focus_pthread = on; }
 int pmc_self(void) { return self; }
 int pmc_controlled(void) { return ctl && self >= 0; }
 void pmc_on_stuck(void (*cb)(void)) { stuck_cb = cb; }
+void pmc_event_log(int on) { evlog_on = on; if (on) evlog_n = 0; }
+void pmc_event_mark(int code)
+{
+    if (evlog_on && evlog_n < 1024 && self >= 0) evlog[evlog_n++] = EvRec{(uint8_t) self, 0, 0, 255, (uint32_t) code, 0};
+}
+int pmc_event_count(void) { return evlog_n; }
+int pmc_event_get(int i, int* tid, int* kind, int* changed, int* watch, unsigned* off, unsigned long long* val)
+{
+    if (i < 0 || i >= evlog_n) return 0;
+    *tid = evlog[i].tid; *kind = evlog[i].kind; *changed = evlog[i].changed; *watch = evlog[i].watch; *off = evlog[i].off; *val = evlog[i].val;
+    return 1;
+}
 void pmc_set_quantum(long ops) { quantum_cfg = ops; QUANTUM = ops * (X && X->limit_mult ? X->limit_mult : 1); }
 void pmc_set_horizon(long ops) { OPS_HORIZON = ops; }
 void pmc_set_stuck_rounds(long r) { stuck_cfg = r; STUCK_ROUNDS = r * (X && X->limit_mult ? X->limit_mult : 1); }
@@ -800,6 +819,7 @@ void pmc_rt_begin(pmc_exec_rec* rec)
     QUANTUM = quantum_cfg * m;
     STUCK_ROUNDS = stuck_cfg * m;
     stuck_cb = nullptr;
+    evlog_on = evlog_n = 0;
     cur_sites = nullptr;
     cur_nsites = 0;
     if (rec->spec_index >= 0 && rec->spec_index < MAXSPEC)
